@@ -18,6 +18,7 @@ for c in m['checks']:
     jsonschema.validate(e, es)
     cov = e['coverage']
     assert e['level'] != 'proof' or cov['obligations'] == cov['discharged'], (c['property_id'], cov['obligations'], cov['discharged'])
+    assert e['level'] == c['level_claimed']['category'], (c['property_id'], e['level'], c['level_claimed']['category'])
 print('manifest and evidence valid for', len(m['checks']), 'checks')
 PY
 exit $rc
